@@ -322,12 +322,18 @@ def stepState0 (st : DState) (toks : List String) : Option (DState × Out × Str
     else if parseInt declared ≤ 0 then some (st, Out.err .MissingContentLength, "err MissingContentLength", "-")
     else
       let (u, r) := st.upl.uploadPart md5 (fromHex b) (fromHex k) (parseNat id) nI.toNat (parseInt declared) bodyB
+      -- specification: a part sent to a pending upload is acknowledged with the digest of its
+      -- bytes; an upload that was completed, aborted or never started is NoSuchUpload
+      let known := st.mspec.any (fun s => s.id == parseNat id && s.bucket == fromHex b && s.key == fromHex k)
+      let sp := if !known then "err NoSuchUpload"
+                else if parseInt declared == (bodyB.length : Int) then "part " ++ toHex (Bytes.hexLower (md5 bodyB))
+                else "-"
       (match r with
        | .ok h =>
          let ms := st.mspec.map fun s => if s.id == parseNat id then Spec.Multipart.setLatest s nI.toNat bodyB else s
-         some ({ st with upl := u, mspec := ms }, Out.ok, s!"part {toHex (Bytes.hexLower h)}", "-")
-       | .err c => some ({ st with upl := u }, Out.err c, s!"err {c.name}", "-")
-       | .panic _ => some ({ st with upl := u }, Out.ok, "panic", "-"))
+         some ({ st with upl := u, mspec := ms }, Out.ok, s!"part {toHex (Bytes.hexLower h)}", sp)
+       | .err c => some ({ st with upl := u }, Out.err c, s!"err {c.name}", sp)
+       | .panic _ => some ({ st with upl := u }, Out.ok, "panic", sp))
   | ["mpcomplete", b, k, id, listed] =>
     let ls : List (Int × Bytes) := if listed == "~" then [] else
       (listed.splitOn ",").map fun e => match e.splitOn ":" with
